@@ -117,6 +117,8 @@ def classify(results):
     user_ok, user_fail, wit_ok, wit_bad, unw_fail, mem_fail, nmem = [], [], [], [], [], [], 0
     for r in results:
         d = r.get('description', ''); p = r.get('property', ''); st = r.get('status')
+        if d.startswith('one vCPU: a thread spins'):      # name the site: a known finding must not hide a different self-deadlock
+            d += ' @' + str((r.get('sourceLocation') or {}).get('function', '?'))
         if d.startswith('WITNESS'):
             (wit_ok if st == 'FAILURE' else wit_bad).append(d)
         elif '.unwind.' in p or 'unwinding assertion' in d:
